@@ -26,6 +26,7 @@ def main():
     sys.path.insert(0, HERE)
     import rust2coq as X
     srcs = {i["src"] for t in X.TARGETS.values() for i in t["items"]} | {s["src"] for s in X.TYPES.values() if s.get("src")}
+    srcs |= {s["src"] for t in X.TARGETS.values() for s in t.get("types", {}).values() if s.get("src")}
     for s in srcs:
         os.makedirs(os.path.dirname(s), exist_ok=True)
         shutil.copy(os.path.join("/repo", os.path.relpath(s, root)), s)
@@ -43,7 +44,16 @@ def main():
             return 2
         open(p, "w").write(new)
     mods = {}
-    for t in X.TARGETS[target]["deps"] + [target]:
+    order = []
+
+    def collect(t):
+        for d in X.TARGETS[t]["deps"]:
+            collect(d)
+        if t not in order:
+            order.append(t)
+    for tg in target.split(","):
+        collect(tg)
+    for t in order:
         try:
             text, _, _ = X.translate(t)
         except X.ParseError as e:
@@ -51,13 +61,22 @@ def main():
             return 0
         mods[os.path.basename(X.TARGETS[t]["out"])[:-2]] = text
 
+    props = prop.split(",")
+    pnames = [os.path.basename(x)[:-2] for x in props]
+
     def rewrite(s):
         out = []
         for line in s.splitlines():
             if line.startswith("From EC Require Import"):
                 ws = line[len("From EC Require Import"):].rstrip(".").split()
-                ec = [w for w in ws if not (w.startswith("Gen.") and w[4:] in mods)]
-                xs = ["X" + w[4:] for w in ws if w.startswith("Gen.") and w[4:] in mods]
+                ec, xs = [], []
+                for w in ws:
+                    if w.startswith("Gen.") and w[4:] in mods:
+                        xs.append("X" + w[4:])
+                    elif w.startswith("Properties.") and w[11:] in pnames:
+                        xs.append("P_" + w[11:])
+                    else:
+                        ec.append(w)
                 if ec:
                     out.append("From EC Require Import " + " ".join(ec) + ".")
                 if xs:
@@ -69,8 +88,9 @@ def main():
     os.makedirs(sdir)
     for name, text in mods.items():
         open(f"{sdir}/X{name}.v", "w").write(rewrite(text))
-    open(f"{sdir}/P.v", "w").write(rewrite(open(prop).read()))
-    for f in ["X" + n for n in mods] + ["P"]:
+    for x, n in zip(props, pnames):
+        open(f"{sdir}/P_{n}.v", "w").write(rewrite(open(x).read()))
+    for f in ["X" + n for n in mods] + ["P_" + n for n in pnames]:
         r = subprocess.run(["coqc", "-Q", os.path.join(os.path.dirname(HERE), "coq", "theories"), "EC", "-Q", sdir, "X", f"{sdir}/{f}.v"],
                            capture_output=True, text=True)
         if r.returncode:
